@@ -219,6 +219,10 @@ pub fn open_flags(rng: &mut Rng, has_fifo: bool) -> i32 {
     if has_fifo && fl & libc::O_PATH == 0 {
         fl |= libc::O_NONBLOCK;
     }
+    // a one-shot open never creates: every spelling of a creation request is refused up front
+    if rng.chance(1, 16) {
+        fl |= *rng.pick(&[libc::O_CREAT, libc::O_EXCL, libc::O_CREAT | libc::O_EXCL, libc::O_TMPFILE, libc::O_PATH | libc::O_CREAT]);
+    }
     fl
 }
 
